@@ -356,3 +356,183 @@ Proof.
     + rewrite Hq. destruct Hu as [Hu _]. auto.
   - auto.
 Qed.
+
+(* ====================================================== the invariant *)
+(* phase list: ids strictly increasing; not_indexed <-> id -1; ids >= -1 *)
+Definition PInv (pl : plist) : Prop :=
+  sortedk pl /\
+  (forall i p, In (i, p) pl -> (pname p = ni_name <-> i = -1)) /\
+  (forall i, In i (ids pl) -> -1 <= i).
+
+(* store: additionally every phase id of the data (ALL points, hence of every
+   selection) has an entry in the phase list *)
+Definition Inv (st : store) : Prop :=
+  PInv (s_phases st) /\ (forall x, In x (s_pid st) -> In x (ids (s_phases st))).
+
+Lemma names_In s pl : In s (names pl) <-> exists i p, In (i, p) pl /\ pname p = s.
+Proof.
+  unfold names. rewrite in_map_iff. split.
+  - intros [[i p] [E H]]. eauto.
+  - intros [i [p [H E]]]. exists (i, p). auto.
+Qed.
+
+Lemma In_ids i p (pl : plist) : In (i, p) pl -> In i (ids pl).
+Proof. intros H. apply (in_map fst) in H. auto. Qed.
+
+Lemma add_not_indexed_PInv pl : PInv pl -> PInv (add_not_indexed pl).
+Proof.
+  intros [Hs [Hn Hl]]. split; [|split].
+  - apply add_not_indexed_sorted; auto.
+  - intros i p Hin. apply add_not_indexed_In in Hin. destruct Hin as [E|E].
+    + inversion E; subst. split; auto.
+    + apply (Hn _ _ E).
+  - intros i Hi. apply add_not_indexed_ids in Hi. destruct Hi; [lia|auto].
+Qed.
+
+Lemma maybe_add_ni_PInv z pl : PInv pl -> PInv (maybe_add_ni z pl).
+Proof.
+  intros H. unfold maybe_add_ni. destruct ((z =? -1) && negb (memS ni_name (names pl))); auto.
+  apply add_not_indexed_PInv; auto.
+Qed.
+
+Lemma maybe_add_ni_ids z pl x : In x (ids pl) -> In x (ids (maybe_add_ni z pl)).
+Proof.
+  intros H. unfold maybe_add_ni. destruct ((z =? -1) && negb (memS ni_name (names pl))); auto.
+  apply add_not_indexed_ids; auto.
+Qed.
+
+Lemma maybe_add_ni_has z pl : PInv pl -> z = -1 \/ In z (ids pl) -> In z (ids (maybe_add_ni z pl)).
+Proof.
+  intros [Hs [Hn Hl]] [E|E]; [|apply maybe_add_ni_ids; auto].
+  subst z. unfold maybe_add_ni. simpl.
+  destruct (memS ni_name (names pl)) eqn:M; simpl.
+  - apply memS_In, names_In in M. destruct M as [i [p [H1 H2]]].
+    apply (Hn _ _ H1) in H2. subst. eapply In_ids; eauto.
+  - apply add_not_indexed_ids; auto.
+Qed.
+
+Lemma add_one_PInv pl p : PInv pl -> pname p <> ni_name -> PInv (pl ++ [(new_id pl, p)]).
+Proof.
+  intros [Hs [Hn Hl]] Hp.
+  assert (Hlow : -1 < new_id pl).
+  { apply new_id_lower; [|lia]. apply Forall_forall. auto. }
+  split; [|split].
+  - apply sortedk_snoc; auto. apply new_id_gt.
+  - intros i q Hin. apply in_app_or in Hin. destruct Hin as [E|[E|[]]]; [apply (Hn _ _ E)|].
+    inversion E; subst. split; [tauto|lia].
+  - intros i Hi. rewrite ids_app in Hi. apply in_app_or in Hi. destruct Hi as [Hi|[Hi|[]]]; auto.
+    simpl in Hi. lia.
+Qed.
+
+Lemma add_PInv ps : forall pl, PInv pl -> (forall p, In p ps -> pname p <> ni_name) ->
+  PInv (fst (add pl ps)) /\ incl (ids pl) (ids (fst (add pl ps))).
+Proof.
+  induction ps as [|p r IH]; simpl; intros pl H Hp; [split; [auto|apply incl_refl]|].
+  destruct (memS (pname p) (names pl)); simpl; [split; [auto|apply incl_refl]|].
+  rewrite add_one_eq. destruct (IH (pl ++ [(new_id pl, p)])) as [H1 H2]; auto.
+  - apply add_one_PInv; auto.
+  - split; auto. intros x Hx. apply H2. rewrite ids_app. apply in_or_app; auto.
+Qed.
+
+Lemma dict_remove_PInv i pl : PInv pl -> PInv (dict_remove i pl) /\
+  (forall x, In x (ids (dict_remove i pl)) <-> In x (ids pl) /\ x <> i).
+Proof.
+  intros [Hs [Hn Hl]]. assert (Hnd := sortedk_NoDup _ Hs).
+  assert (Hids : forall x, In x (ids (dict_remove i pl)) <-> In x (ids pl) /\ x <> i).
+  { intros x. rewrite dict_remove_filter by auto.
+    rewrite (ids_filter_In (fun k => negb (k =? i))). rewrite negb_true_iff, Z.eqb_neq. tauto. }
+  split; auto. split; [|split].
+  - apply dict_remove_sorted; auto.
+  - intros j p H. rewrite dict_remove_filter in H by auto. apply filter_In in H. apply (Hn _ _ (proj1 H)).
+  - intros x Hx. apply Hids in Hx. apply Hl; tauto.
+Qed.
+
+(* side conditions of the property on each operation *)
+Definition op_ok (s : mstate) (o : op) : Prop :=
+  let st := m_store s in
+  match o with
+  | OSetPid _ (PScalar z) => z = -1 \/ In z (ids (s_phases st))
+  | OSetPid _ (PArr [z]) => z = -1 \/ In z (ids (s_phases st))
+  | OSetPid _ (PArr zs) => forall z, In z zs -> In z (ids (s_phases st))
+  | OPhAdd ps => forall p, In p ps -> pname p <> ni_name
+  | OPhDel (DelInt i) => ~ In i (s_pid st)
+  | OPhDel (DelStr n) => forall i, first_id_with_name n (s_phases st) = Some i -> ~ In i (s_pid st)
+  | _ => True
+  end.
+
+Lemma set_pid_scalar_Inv st v z : Inv st -> z = -1 \/ In z (ids (s_phases st)) ->
+  Inv (mkStore (fill v z (s_pid st)) (maybe_add_ni z (s_phases st)) (s_props st)).
+Proof.
+  intros [HP He] Hz. split; simpl.
+  - apply maybe_add_ni_PInv; auto.
+  - intros x Hx. apply fill_In in Hx. destruct Hx as [Hx|Hx].
+    + subst. apply maybe_add_ni_has; auto.
+    + apply maybe_add_ni_ids; auto.
+Qed.
+
+Lemma set_pid_Inv st v val : Inv st ->
+  match val with
+  | PScalar z => z = -1 \/ In z (ids (s_phases st))
+  | PArr [z] => z = -1 \/ In z (ids (s_phases st))
+  | PArr zs => forall z, In z zs -> In z (ids (s_phases st))
+  end -> Inv (fst (set_pid st v val)).
+Proof.
+  intros HI Hv. destruct val as [z|zs].
+  - simpl. apply set_pid_scalar_Inv; auto.
+  - destruct zs as [|z [|z' r]].
+    + simpl. destruct (Nat.eqb (count v) 0); auto.
+    + simpl. apply set_pid_scalar_Inv; auto.
+    + unfold set_pid. destruct (Nat.eqb (List.length (z :: z' :: r)) (count v)); simpl; auto.
+      destruct HI as [HP He]. split; simpl; auto.
+      intros x Hx. apply scatter_In in Hx. destruct Hx; auto.
+Qed.
+
+Lemma set_prop_same st v k val :
+  s_pid (fst (set_prop st v k val)) = s_pid st /\ s_phases (fst (set_prop st v k val)) = s_phases st.
+Proof.
+  unfold set_prop. destruct val as [d z|d zs]; simpl; auto.
+  destruct zs as [|z [|z' r]]; auto.
+  - destruct (Nat.eqb (List.length (@nil Z)) (count v)); simpl; auto.
+  - destruct (Nat.eqb (List.length (z :: z' :: r)) (count v)); simpl; auto.
+Qed.
+
+Lemma step_Inv s o : Inv (m_store s) -> op_ok s o -> Inv (m_store (fst (step s o))).
+Proof.
+  intros HI Hok. destruct o as [i sl|i val|i k val|ps|k| |]; simpl in *.
+  - destruct (nth_error (m_views s) i); auto. destruct (select _ _ _); auto.
+  - destruct (nth_error (m_views s) i) as [v|]; auto.
+    pose proof (set_pid_Inv (m_store s) v val HI) as G.
+    destruct (set_pid (m_store s) v val) as [st' e]. simpl in *. apply G.
+    destruct val as [z|[|z [|z' r]]]; auto.
+  - destruct (nth_error (m_views s) i) as [v|]; auto.
+    pose proof (set_prop_same (m_store s) v k val) as [G1 G2].
+    destruct (set_prop (m_store s) v k val) as [st' e]. simpl in *.
+    destruct HI as [HP He]. split; [rewrite G2|rewrite G1, G2]; auto.
+  - destruct HI as [HP He]. destruct (add_PInv ps _ HP Hok) as [H1 H2].
+    destruct (add (s_phases (m_store s)) ps) as [pl e]. simpl in *. split; simpl; auto.
+  - destruct HI as [HP He].
+    destruct k as [j|n|]; simpl in *.
+    + destruct (memZ j (ids (s_phases (m_store s)))); simpl; [|split; auto].
+      destruct (dict_remove_PInv j _ HP) as [H1 H2]. split; simpl; auto.
+      intros x Hx. apply H2. split; auto. intros E; subst. auto.
+    + destruct (first_id_with_name n (s_phases (m_store s))) as [j|] eqn:F; simpl; [|split; auto].
+      destruct (dict_remove_PInv j _ HP) as [H1 H2]. split; simpl; auto.
+      intros x Hx. apply H2. split; auto. intros E; subst. apply (Hok j); auto.
+    + split; auto.
+  - destruct HI as [HP He]. split; simpl; [apply add_not_indexed_PInv; auto|].
+    intros x Hx. apply add_not_indexed_ids; auto.
+  - destruct HI as [HP He]. split; simpl; rewrite sort_by_id_id by apply HP; auto.
+Qed.
+
+(* all histories whose operations satisfy the side conditions *)
+Fixpoint run_ok (ops : list op) (s : mstate) : Prop :=
+  match ops with
+  | [] => True
+  | o :: r => op_ok s o /\ run_ok r (fst (step s o))
+  end.
+
+Theorem run_Inv ops : forall s, Inv (m_store s) -> run_ok ops s -> Inv (m_store (run ops s)).
+Proof.
+  unfold run. induction ops as [|o r IH]; simpl; intros s H Hok; auto.
+  destruct Hok as [H1 H2]. apply IH; auto. apply step_Inv; auto.
+Qed.
